@@ -264,22 +264,28 @@ def fromVec (list : List BoF) : Res UserBoundsList :=
   | none => .panic
   | some l' => .ok { list := l', lastInteresting := rightmost.getD .cont }
 
+/-- what `UserBoundsList::unpack` puts in place of one element -/
+def unpackBof (numFields : Nat) : BoF → List BoF
+  | .bound b => (b.unpack numFields).map .bound
+  | .filler f => [.filler f]
+
 /-- `UserBoundsList::unpack` (userboundslist.rs:156) -/
 def unpackList (l : List BoF) (numFields : Nat) : Res UserBoundsList :=
-  fromVec <| l.flatMap fun
-    | .bound b => (b.unpack numFields).map .bound
-    | .filler f => [.filler f]
+  fromVec (l.flatMap (unpackBof numFields))
 
-/-- `UserBoundsList::complement` (userboundslist.rs:175): every resolvable bound is replaced by
-    what it leaves out; an unresolvable one is kept, so that the output loop applies the
-    fallback rule to it.  `fail` = "the complement is empty". -/
+/-- what `UserBoundsList::complement` puts in place of one element: every resolvable bound is
+    replaced by what it leaves out; an unresolvable one is kept, so that the output loop applies
+    the fallback rule to it -/
+def complementBof (numFields : Nat) : BoF → List BoF
+  | .bound b =>
+    match b.complement numFields with
+    | some bs => bs.map .bound
+    | none => [.bound { b with isLast := false }]
+  | .filler f => [.filler f]
+
+/-- `UserBoundsList::complement` (userboundslist.rs:175).  `fail` = "the complement is empty". -/
 def complementList (l : List BoF) (numFields : Nat) : Res UserBoundsList :=
-  let list := l.flatMap fun
-    | .bound b =>
-      match b.complement numFields with
-      | some bs => bs.map .bound
-      | none => [.bound { b with isLast := false }]
-    | .filler f => [.filler f]
+  let list := l.flatMap (complementBof numFields)
   if (boundsOnly list).isEmpty then .fail else fromVec list
 
 /-! ## the format-string scanner (userboundslist.rs:209) -/
